@@ -69,8 +69,8 @@ var c15Ignores = []string{
 	"^.*$",                      // anchored at both ends: matches every message, and only the message
 	"unknown\\. available labels are .*\"$",
 	"[a-z\")]$",
-	"\\]$",                       // no message ends with a bracket
-	" is",                       // white space at the edge of a pattern is part of the pattern
+	"\\]$", // no message ends with a bracket
+	" is",  // white space at the edge of a pattern is part of the pattern
 	"label ",
 	"unknown\\. ",
 }
